@@ -6,7 +6,25 @@
    per file, cache + WAL entry, index), crashes with any cut of the unsynced WAL tail between any
    two steps — including inside recovery — and recoveries as four separate steps. *)
 From Verif Require Import Shard.Engine C01.Kv C01.Facts C01.Dinv C01.Inv C01.Steps6 C01.Spec C01.Proofs C01.Link.
+From VerifGen Require Import Consts.
 Open Scope Z_scope.
+
+(* Two steps of the engine machine stand for code that must run as ONE critical section, resp.
+   in one order; both shapes are re-derived from tsdb/engine/tsm1/engine.go on every run by the
+   translator (tools/genconsts/c19.go):
+   - SnapBegin = WAL.CloseSegment + WAL.ClosedSegments + Cache.Snapshot inside one function
+     literal of Engine.writeSnapshot that holds e.mu.Lock: a write acknowledged between the cache
+     snapshot and the segment close would sit in a segment the snapshot removes;
+   - SnapRename; SnapClear; SnapRemoveWAL = FileStore.Replace, then Cache.ClearSnapshot(true),
+     then WAL.Remove in writeSnapshotAndCommit.
+   A change that splits the section or reorders the commit makes these obligations fail. *)
+Theorem snapshot_begin_is_one_section : c01_snapshot_begin_one_section = true.
+Proof. reflexivity. Qed.
+Print Assumptions snapshot_begin_is_one_section.
+
+Theorem snapshot_commit_order_is_modelled : c01_snapshot_commit_order = true.
+Proof. reflexivity. Qed.
+Print Assumptions snapshot_commit_order_is_modelled.
 
 (* Replaying a WAL segment cut by a crash yields exactly the whole frames before the cut:
    the [n] synced ones plus the [keep] unsynced ones that made it, whatever torn bytes follow. *)
